@@ -69,9 +69,34 @@ pub fn apply_ops(name: &str, ops: &[StartOp]) -> (String, Vec<(String, String)>)
     (name, attrs)
 }
 
+/// A copy / ownership conversion chosen by `k` (a pure function of the spec): what was built
+/// must be the same event whichever way it is handed on.
+fn convert_start(s: BytesStart<'static>, k: usize) -> BytesStart<'static> {
+    match k % 6 {
+        0 => s,
+        1 => s.to_owned(),
+        2 => s.borrow().into_owned(),
+        3 => s.clone(),
+        4 => s.borrow().to_owned().into_owned(),
+        _ => match std::str::from_utf8(&s) {
+            Ok(text) => BytesStart::from_content(text.to_string(), s.name().as_ref().len()),
+            Err(_) => s,
+        },
+    }
+}
+
 pub fn build_start(name: &str, ops: &[StartOp]) -> BytesStart<'static> {
-    let mut s = BytesStart::new(name.to_string());
+    // the seed of the conversions: a pure function of the spec
+    let mut k = name.len() + 7 * ops.len();
+    let mut s = match k % 3 {
+        0 => BytesStart::new(name.to_string()),
+        1 => BytesStart::from(quick_xml::name::QName(name.as_bytes())).into_owned(),
+        _ => BytesStart::from_content(name.to_string(), name.len()),
+    };
     for op in ops {
+        // a conversion between any two builder calls (edits continue on the copy)
+        k = k.wrapping_mul(31).wrapping_add(11);
+        s = convert_start(s, k >> 2);
         match op {
             StartOp::Push(k, v) => s.push_attribute((k.as_str(), v.as_str())),
             StartOp::Extend(l) => {
@@ -86,15 +111,29 @@ pub fn build_start(name: &str, ops: &[StartOp]) -> BytesStart<'static> {
             }
         }
     }
-    s
+    k = k.wrapping_mul(31).wrapping_add(11);
+    convert_start(s, k >> 2)
+}
+
+fn convert_event(e: Event<'static>, k: usize) -> Event<'static> {
+    match k % 4 {
+        0 => e,
+        1 => e.borrow().into_owned(),
+        2 => e.clone(),
+        _ => e.clone().into_owned().borrow().into_owned(),
+    }
 }
 
 /// The plain (non-element-builder) events of a spec; `Element` is handled by the writers.
 pub fn build_events(spec: &EvSpec) -> Vec<Event<'static>> {
-    match spec {
+    let v: Vec<Event<'static>> = match spec {
         EvSpec::Start(n, ops) => vec![Event::Start(build_start(n, ops))],
         EvSpec::Empty(n, ops) => vec![Event::Empty(build_start(n, ops))],
-        EvSpec::End(n) => vec![Event::End(BytesEnd::new(n.clone()))],
+        EvSpec::End(n) => vec![Event::End(match n.len() % 3 {
+            0 => BytesEnd::new(n.clone()),
+            1 => BytesStart::new(n.as_str()).to_end().into_owned(),
+            _ => BytesEnd::from(quick_xml::name::QName(n.as_bytes())).into_owned(),
+        })],
         EvSpec::Text(s) => vec![Event::Text(BytesText::new(s).into_owned())],
         EvSpec::CData(s) => BytesCData::escaped(s).map(|c| Event::CData(c.into_owned())).collect(),
         EvSpec::Comment(s) => vec![Event::Comment(BytesText::from_escaped(s.clone()))],
@@ -103,7 +142,9 @@ pub fn build_events(spec: &EvSpec) -> Vec<Event<'static>> {
         EvSpec::DocType(s) => vec![Event::DocType(BytesText::from_escaped(s.clone()))],
         EvSpec::Eof => vec![Event::Eof],
         EvSpec::Element(..) => vec![],
-    }
+    };
+    let k = format!("{:?}", spec).len();
+    v.into_iter().enumerate().map(|(i, e)| convert_event(e, k + i)).collect()
 }
 
 pub fn norm_of(specs: &[EvSpec], out: &mut Vec<Norm>) {
